@@ -1053,7 +1053,42 @@ func genTypedProgram(r *RNG, model *CfgModel, userClasses []*GClass, n int) []*t
 		}
 		st := &tStmt{Text: res.name + " = " + call, Kind: "call", Verdict: j.verdict, Reason: j.reason, Feature: feature, Tainted: tainted}
 		var cont []string
+		// one of several declarations takes no parameters: whether the tokens
+		// after a call without parentheses are arguments must not hang on the
+		// first declaration only, so that form is chosen more often here
+		emptyOverload := false
+		for _, rcl := range recvTyAtCall.Atoms {
+			ds := model.Lookup(rcl, method, false)
+			for _, d := range ds {
+				if len(ds) > 1 && len(d.Params) == 0 {
+					emptyOverload = true
+				}
+			}
+		}
+		noParens := len(argTexts) >= 1 && !strings.ContainsAny(argTexts[0][:1], "[-({*&") &&
+			((emptyOverload && r.Bool()) || r.Chance(1, 8))
 		switch {
+		case noParens:
+			// the argument list without parentheses
+			st.Text = res.name + " = " + recv.name + "." + method + " " + strings.Join(argTexts, ", ")
+			st.Feature = "no-parens:" + feature
+			// ti leaves what follows a method without declared parameters alone
+			// (listed finding): such calls get one signature of their own
+			parameterless := len(recvTyAtCall.Atoms) > 0
+			for _, rcl := range recvTyAtCall.Atoms {
+				ds := model.Lookup(rcl, method, false)
+				if len(ds) == 0 {
+					parameterless = false
+				}
+				for _, d := range ds {
+					if len(d.Params) > 0 {
+						parameterless = false
+					}
+				}
+			}
+			if parameterless {
+				st.Feature = "no-parens:parameterless-method"
+			}
 		case len(argTexts) >= 2 && r.Chance(1, 4):
 			// the argument list broken over lines: the call is the line it starts on
 			st.Text = res.name + " = " + recv.name + "." + method + "(" + argTexts[0] + ","
